@@ -408,6 +408,8 @@ def rules(chk: Check) -> None:
     if A.typed < 250:
         raise AnchorMissing(f"affine-kind inference typed only {A.typed} nodes (floor 250): seeds no longer match the API")
     for (qual, p) in PARAM:
+        if qual.count(".") >= 2:
+            continue      # seeds of nested helper functions are optional (renaming / inlining one is not an API change)
         if not any(qual in m_.funcs and p in m_.funcs[qual].params() for m_ in S.modules.values()):
             raise AnchorMissing(f"affine seed {qual}({p}) names an API member that no longer exists")
     # ---- R08.1
@@ -500,7 +502,8 @@ def rules(chk: Check) -> None:
     cc = Ctx(S, fc)
     FS = "self.derivativeSettings.fieldValueVariationScale"
     ok = any(eqx(a_.test, f"{FS}.size == self.fieldCount") or eqx(a_.test, f"len({FS}) == self.fieldCount") for a_ in own_nodes(fc.node) if isinstance(a_, ast.Assert))
-    ones = any(isinstance(st, ast.Assign) and eqx(st.targets[0], FS) and has(st.value, "np.ones(self.fieldCount)") for st in own_nodes(fc.node))
+    ones = any(isinstance(st, ast.Assign) and eqx(st.targets[0], FS) and (has(st.value, "np.ones(self.fieldCount)") or any(isinstance(c_, ast.Call) and eqx(c_.func, "np.full") and c_.args and eqx(c_.args[0], "self.fieldCount")
+                                                                for c_ in ast.walk(st.value))) for st in own_nodes(fc.node))
     chk.ob("R08.3", fc.where(), "per-field finite-difference scales: a scalar is broadcast to fieldCount entries, an array must have fieldCount entries", ok and ones,
            key="scales-length")
     fcomb = [st for st in own_nodes(fc.node) if isinstance(st, ast.Assign) and "combinedScales" in n(st.targets[0])]
